@@ -103,13 +103,99 @@ def c05():
     return v.finish()
 
 
+INDEP_CFG = """SPECIFICATION Spec
+CONSTANTS Mode = "%s"
+INVARIANTS Monotone LinAlwaysIndependent RepOnlyOnRep PositionIrrelevant VerdictOK
+CHECK_DEADLOCK FALSE
+"""
+
+
+def indep_program(site, m, ks):
+    ps = ["p%d" % (i + 1) for i in range(len(ks))]
+    waits = "".join("wait %s; " % p for p in ps)
+    if site == "fun":
+        return "let f(%s) : %s 1 = %sclose self\n" % (", ".join("%s : %s 1" % (p, k) for p, k in zip(ps, ks)), m, waits)
+    if site == "funx":
+        return "let f[w : %s 1, %s] = %sclose w\n" % (m, ", ".join("%s : %s 1" % (p, k) for p, k in zip(ps, ks)), waits)
+    if site == "cutcont":
+        ps2, ks2 = ps[:-1], ks[:-1]
+        waits2 = "".join("wait %s; " % p for p in ps2)
+        return "let g(%s) : %s 1 = x : %s 1 <- new close self; wait x; %sclose self\n" % (
+            ", ".join("%s : %s 1" % (p, k) for p, k in zip(ps2, ks2)), m, ks[-1], waits2)
+    if site == "prc":
+        bs = ["b%d" % (i + 1) for i in range(len(ks))]
+        return "prc[a] : %s 1 = %sclose self\n" % (m, "".join("wait %s; " % b for b in bs)) + "".join("prc[%s] : %s 1 = close self\n" % (b, k) for b, k in zip(bs, ks))
+    raise ValueError(site)
+
+
+def indep_campaign(v, work):
+    """every judgement site x every mode tuple (Indep.tla): the real verdict must be the expected one"""
+    import itertools
+    modes = ["rep", "mul", "aff", "lin"]
+    cases = []
+    for site in ("fun", "funx", "cutcont", "prc"):
+        for m in modes:
+            for n in (1, 2, 3):
+                for ks in itertools.product(modes, repeat=n):
+                    cases.append({"site": site, "m": m, "ks": list(ks), "text": indep_program(site, m, list(ks))})
+
+    def run_chunk(chunk):
+        w = vlib.Worker(timeout=10)
+        for c in chunk:
+            r = w.call({"op": "check", "text": c["text"]})
+            if r.get("hang") or "crash" in r or "panic" in r:
+                c["verdict"] = "crash"
+            elif r.get("parse") != "ok":
+                c["verdict"] = "parse-error"; c["detail"] = str(r.get("parse"))[:200]
+            else:
+                c["verdict"] = "accept" if r.get("tc") == "ok" else "reject"
+                c["detail"] = str(r.get("tc"))[:200]
+        w.stop()
+        return chunk
+
+    n = max(1, (len(cases) + vlib.NCPU - 1) // vlib.NCPU)
+    with concurrent.futures.ThreadPoolExecutor(max_workers=vlib.NCPU) as ex:
+        list(ex.map(run_chunk, [cases[i:i + n] for i in range(0, len(cases), n)]))
+    for c in cases:
+        if c["verdict"] == "parse-error":
+            v.harness_errors.append("independence program does not parse (%s): %s" % (c.get("detail"), c["text"]))
+    todo = [c for c in cases if c["verdict"] in ("accept", "reject")]
+    model = vlib.tlc("Indep", INDEP_CFG % "model", workers=4, timeout=300, work=work, env={"VERIF_TRACES": "/dev/null"})
+    if not model["ok"]:
+        v.harness_errors.append("Indep.tla (model mode): %s" % (model["violated"] or model["error_text"]))
+    ok, bad, states = 0, [], model["distinct"]
+    if todo:
+        import re
+        tp = work.path("indep_obs.json")
+        json.dump([{k: c[k] for k in ("site", "m", "ks", "verdict")} for c in todo], open(tp, "w"))
+        # -continue: TLC reports every observation that violates VerdictOK, not only the first
+        r = vlib.tlc("Indep", INDEP_CFG % "conform", env={"VERIF_TRACES": tp}, workers=1, timeout=600, work=work, extra=("-continue",))
+        states += r["distinct"]
+        if r["violated"] not in (None, "VerdictOK") or (not r["ok"] and not r["violated"]):
+            v.harness_errors.append("Indep conformance: %s" % (r["violated"] or r["error_text"]))
+        else:
+            ois = sorted({int(x) for x in re.findall(r"^/\\ oi = (\d+)", r["out"], re.M)}) if r["violated"] else []
+            bad = [todo[i - 1] for i in ois]
+            ok = len(todo) - len(bad)
+    for c in bad:
+        kind = {"prc": "weaker-dep-prc", "fun": "weaker-dep-fun", "funx": "weaker-dep-fun", "cutcont": "weaker-dep-cut"}[c["site"]]
+        v.violation("judgement %s with provider mode %s and context modes %s is %sed: %s" % (c["site"], c["m"], c["ks"], c["verdict"], c["text"].replace("\n", " ; ")),
+                    {"program": c["text"], "site": c["site"], "m": c["m"], "ks": c["ks"], "verdict": c["verdict"], "detail": c.get("detail")},
+                    {"kind": kind, "verdict": c["verdict"]})
+    return {"judgements": len(cases), "conforming": ok, "violating": len(bad), "states": states,
+            "by_site": dict(collections.Counter(c["site"] for c in cases)), "sample": cases[5]["text"]}
+
+
 def c06():
     t0 = time.time()
     v = vlib.Verdict("C06")
     res, stats = typing_campaign()
     sel = lambda p: p["mut"] is not None and p["mut"]["class"] == "C06"
     _judge("C06", res, stats, sel, v)
-    _evidence("C06", res, stats, sel, t0, v)
+    with vlib.Work("indep") as work:
+        ind = indep_campaign(v, work)
+    _evidence("C06", res, stats, sel, t0, v, {"independence_enumeration": ind,
+              "traces_validated_against_impl": ind["conforming"] + sum(1 for p in res if sel(p) and p["verdict"] == p["expect"])})
     return v.finish()
 
 
